@@ -111,6 +111,8 @@ type Reply struct {
 	PostSeal func(ct []byte) []byte
 	// Raw, when set by a perturbation, replaces the whole reply
 	Raw []byte
+	// RawEnc, when set by a perturbation, is sealed in place of the encoded enc-part
+	RawEnc []byte
 }
 
 // KDC is the model of one realm's KDC.
@@ -129,6 +131,8 @@ type KDC struct {
 	Expect     Expect
 	Issued     []Issued
 	Requests   []Request
+	// FreshKeyOnRenew: renewed tickets carry a new session key instead of keeping the old one.
+	FreshKeyOnRenew bool
 	// LenientAuthCRealm: also accept an authenticator whose crealm is the realm of the presented ticket instead
 	// of the client's realm (what lenient KDCs tolerate); used to explore referral chains past the known finding.
 	LenientAuthCRealm bool
@@ -489,7 +493,11 @@ func (k *KDC) seal(r *Reply, kvno int64) []byte {
 		return r.Raw
 	}
 	r.Rep.Ticket = r.Ticket.Encode()
-	ct, err := rcrypto.EncryptWithConfounder(r.EncEtype, r.EncKey, r.EncUsage, k.conf(r.EncEtype), r.Enc.Encode())
+	plain := r.Enc.Encode()
+	if r.RawEnc != nil {
+		plain = r.RawEnc
+	}
+	ct, err := rcrypto.EncryptWithConfounder(r.EncEtype, r.EncKey, r.EncUsage, k.conf(r.EncEtype), plain)
 	if err != nil {
 		panic(err)
 	}
@@ -642,7 +650,10 @@ func (k *KDC) handleTGS(req *krbmsg.KDCReq) []byte {
 			k.violate("renewal request names %v but presents a ticket for %v", sname.Names, tkt.SName.Names)
 		}
 		skey = tkey
-		sess = etp.Key.Value // a renewed ticket keeps its session key
+		sess = etp.Key.Value // a renewed ticket keeps its session key (MIT behaviour) ...
+		if k.FreshKeyOnRenew {
+			sess = k.RandKey(sessEt) // ... or gets a new one; a conformant KDC may do either
+		}
 	case len(sname.Names) == 2 && sname.Names[0] == "krbtgt" && sname.Names[1] != k.Realm:
 		ck, ok := k.CrossOut[sname.Names[1]]
 		if !ok {
